@@ -1,13 +1,14 @@
 package main
 
 import (
-	"go/ast"
 	"encoding/json"
 	"flag"
 	"fmt"
+	"go/ast"
 	"os"
 	"os/exec"
 	"path/filepath"
+	"regexp"
 	"runtime"
 	"sort"
 	"strconv"
@@ -381,6 +382,27 @@ func runCheck(o checkOpts) int {
 		}
 	}
 	dischargeAll(obs, scratch, ms, all, runtime.NumCPU()/2+1)
+	// an obligation no solver decided within the limit is tried once more, few at a time and
+	// with three times the limit: on a loaded machine a 1 s query can exceed the limit while
+	// 16 solver processes compete, and a timeout must not be reported as a violation
+	var again []*Oblig
+	for _, ob := range obs {
+		if ob.Status == "unknown" && !ob.Cover && !ob.Quick && !strings.Contains(ob.Detail, "DISAGREEMENT") && timedOut(ob.Detail, ms) {
+			again = append(again, ob)
+		}
+	}
+	if len(again) > 0 && len(again) <= 12 {
+		sub := filepath.Join(scratch, "retry")
+		os.MkdirAll(sub, 0o755)
+		first := map[*Oblig]string{}
+		for _, ob := range again {
+			first[ob] = ob.Detail
+		}
+		dischargeAll(again, sub, ms*3, false, 3)
+		for _, ob := range again {
+			ob.Detail = "first attempt undecided (" + first[ob] + "); retried alone: " + ob.Detail
+		}
+	}
 
 	isKnown := func(name string) *KnownFinding {
 		for i := range known.Findings {
@@ -570,7 +592,7 @@ func runCheck(o checkOpts) int {
 				rp := filepath.Join(outRoot, "replays", id+"-probe-"+sanitize(filepath.Base(p.file))+".json")
 				b, _ := json.MarshalIndent(map[string]any{"property": id, "obligation": "probe:" + filepath.Base(p.file), "probe": p.file,
 					"meaning": "a directed test of the probe corpus fails on the real code: this is a failing input for the property (bounded testing; found although every proof obligation was discharged or independently of them)",
-					"output": out}, "", " ")
+					"output":  out}, "", " ")
 				os.WriteFile(rp, b, 0o644)
 				fmt.Printf("FAILED probe:%s fails on the real code\n%s\n", filepath.Base(p.file), firstN(out, 1200))
 				fmt.Printf("VIOLATION property=%s replay=%s\n", id, rp)
@@ -933,4 +955,21 @@ func cmdLoops(args []string) int {
 		}
 	}
 	return 0
+}
+
+// timedOut: every solver that answered "unknown" ran into the time limit (a solver that gives
+// up early has decided that it cannot decide; one that was cut off may just have been slow)
+func timedOut(detail string, ms int) bool {
+	re := regexp.MustCompile(`:unknown:([0-9.]+)s`)
+	ms2 := re.FindAllStringSubmatch(detail, -1)
+	if len(ms2) == 0 {
+		return false
+	}
+	for _, m := range ms2 {
+		t, _ := strconv.ParseFloat(m[1], 64)
+		if t < 0.8*float64(ms)/1000 {
+			return false
+		}
+	}
+	return true
 }
